@@ -5,7 +5,7 @@ import json, os, re, shutil, subprocess, sys
 prop, k = sys.argv[1], sys.argv[2]
 confirm = " ".join(sys.argv[3:])
 ROUND = os.environ.get("SEED_ROUND", "1")
-PFX = {"1": "wt", "2": "r2", "3": "r3", "4": "r4", "5": "r5"}[ROUND]
+PFX = {"1": "wt", "2": "r2", "3": "r3", "4": "r4", "5": "r5", "6": "r6"}[ROUND]
 ROUND2 = ROUND == "2"
 src = f"/tmp/{PFX}_{prop}/_seed/{k}"
 dst = f"/verif/seeded/{prop}-{'' if ROUND == '1' else 'r' + ROUND + '-'}{k}"
